@@ -168,6 +168,13 @@ pub fn damaged_workspace(r: &mut Rng) -> DamagedWs {
             }
         }
     }
+    // a UTF-8 byte order mark in front of a file (editors on Windows write it): every
+    // offset the analysis reports must still refer to the text it was given
+    if r.chance(1, 5) {
+        let fi = r.below(files.len());
+        files[fi].1 = format!("\u{feff}{}", files[fi].1);
+        ops.push("byte-order-mark".into());
+    }
     files.push(("/ws/pkg/gleam.toml".into(), "name = \"pkg\"\n".into()));
     DamagedWs { files, ops }
 }
